@@ -9,7 +9,7 @@ def run(ctx):
     distinct = len({(c["dataset"], str(c["bits"]), c["i"], c["accept"]) for c in cases})
     ctx.coverage.update({
         "evaluations": len(cases), "distinct_nontrivial": distinct,
-        "rule": "(start set, proposed action, decision) triples on the two shipped data sets: start sets of density 0.1/0.5/0.9, "
+        "rule": "(start set, proposed action, decision) triples on the two shipped data sets and a row-permuted variant of ValidModel (Subcatchments rows reversed, Actions rows rotated): start sets of density 0.1/0.5/0.9, "
                 "a third of the actions per state (all in the thorough tier), both decisions; model vs implementation on the "
                 "observables before / while proposed / after, the six reported changes; implementation-side oracle: values unchanged "
                 "while proposed, accept = total + reported change, revert restores totals, per-unit values, action states and the "
